@@ -61,7 +61,8 @@ def check_ir(ctx: Ctx, ldr, desc, doc, expect, resolved, on_cycle_names, feats_b
     for name, exp in resolved.items():
         if exp is None:
             continue
-        feats = feats_base + (["schema_on_ref_cycle"] if name in on_cycle_names else [])
+        feats = feats_base + (["schema_on_ref_cycle"] if name in on_cycle_names else []) + (
+            ["refers_to_schema_on_cycle"] if name in desc.get("_refers_cyclic", []) else [])
         rec.count("ir_schemas_checked")
         cands = [s for k, s in ir.schemas.items() if k == name or s.name == name]
         real = [s for s in cands if not (s._is_circular_ref or s._max_depth_exceeded_marker or s._from_unresolved_ref)]
@@ -117,7 +118,8 @@ def check_pkg(ctx: Ctx, items: list[dict]) -> None:
         for name, exp in it["resolved"].items():
             if exp is None:
                 continue
-            feats = it["feats"] + (["schema_on_ref_cycle"] if name in it["on_cycle"] else [])
+            feats = it["feats"] + (["schema_on_ref_cycle"] if name in it["on_cycle"] else []) + (
+                ["refers_to_schema_on_cycle"] if name in it["desc"].get("_refers_cyclic", []) else [])
             case = {"desc": it["desc"], "doc": it["doc"], "schema": name}
             entries = [e for e in mm["models"].get(name, []) if e["kind"] == "dataclass"]
             rec.count("pkg_models_checked")
@@ -197,6 +199,12 @@ def prepare(n, edges, order, scheme):
                 changed = True
     desc = {"n": n, "edges": graphgen.edges_key(edges), "order": list(order), "scheme": scheme}
     feats = [f"scheme_{scheme}"]
+    if scheme == "propcase" and any(k == "inline_obj" for k in edges.values()):
+        # an inline-object property whose name equals ANOTHER schema's name up to case (property 'edge', schema 'Edge')
+        feats.append("inline_prop_named_like_schema")
+    # schemas that are not on a cycle themselves but refer to one that is (they may be given a de-collided duplicate class)
+    refers = {names[i] for (i, j), k in edges.items() if k != "none" and names[j] in on_cycle}
+    desc["_refers_cyclic"] = sorted(refers - on_cycle)
     return doc, expect, resolved, on_cycle, desc, feats
 
 
